@@ -17,6 +17,7 @@ type Profile struct {
 	NoStyle                  bool
 	NoDedup                  bool
 	MaxText                  int
+	PrimOnly                 bool // objects: only primitive sets on the generic keys, no deletes, no containers
 }
 
 // DefaultProfile is the C01 mix.
@@ -209,6 +210,9 @@ func (p Profile) Next(r *rand.Rand, conts []Cont, actor string) Edit {
 }
 
 func (p Profile) nextObj(r *rand.Rand, c Cont, del bool) Edit {
+	if p.PrimOnly {
+		return Edit{Op: "obj.set", Path: c.Path, K: objKeys[r.Intn(len(objKeys))], V: p.randPrim(r)}
+	}
 	isRoot := len(c.Path) == 0
 	// deletable keys: at root never delete the skeleton keys too often
 	if (del || r.Intn(4) == 0) && len(c.Keys) > 0 {
